@@ -6,7 +6,10 @@ operation of Cache / FanoutCache / DjangoCache / Deque / Index is called.  The
 observed outcome, the micro-step trace (FW?, BEGIN_BUSY, FRM?) and the unchanged
 table + file set are compared with what DC.Conc.step prescribes for a call that
 finds the lock held (theorems timeout_no_effect / timeout_removes_file /
-retry_waits / reads_need_no_lock)."""
+retry_waits / reads_need_no_lock).  Every method that takes `retry` is also
+called with the lock held for three attempts and must return what the
+uncontended call returns; bulk removals are interrupted after 1-2 committed
+batches and must report exactly the number removed."""
 import os
 import shutil
 import sqlite3
@@ -78,6 +81,43 @@ def django_calls():
         ('incr', lambda c: c.incr('n', retry=False), ('ok', None)),
         ('get', lambda c: c.get('k'), ('ok', BIG)),
         ('has_key', lambda c: c.has_key('k'), ('ok', True)),
+    ]
+
+
+def retry_calls():
+    """(class, name, callable(obj), expected result once the lock is free) — every method that takes
+    `retry`, called with retry=True (DjangoCache: its default) while a foreign connection holds the
+    write lock for a few attempts: the call must wait and then do what the uncontended call does"""
+    return [
+        ('Cache', 'set', lambda c: c.set('k', BIG, retry=True), True),
+        ('Cache', 'add', lambda c: c.add('new', BIG, retry=True), True),
+        ('Cache', 'incr', lambda c: c.incr('n', retry=True), 2),
+        ('Cache', 'decr', lambda c: c.decr('n', retry=True), 0),
+        ('Cache', 'touch', lambda c: c.touch('k', 5, retry=True), True),
+        ('Cache', 'pop', lambda c: c.pop('k', retry=True), BIG),
+        ('Cache', 'delete', lambda c: c.delete('k', retry=True), True),
+        ('Cache', 'push', lambda c: c.push('x', retry=True), 500000000000001),
+        ('Cache', 'pull', lambda c: c.pull(retry=True), (500000000000000, 'q')),
+        ('Cache', 'clear', lambda c: c.clear(retry=True), 3),
+        ('Cache', 'expire', lambda c: c.expire(retry=True), 0),
+        ('Cache', 'evict', lambda c: c.evict('t', retry=True), 0),
+        ('Cache', 'cull', lambda c: c.cull(retry=True), 0),
+        ('FanoutCache', 'set', lambda c: c.set('k', BIG, retry=True), True),
+        ('FanoutCache', 'add', lambda c: c.add('new', BIG, retry=True), True),
+        ('FanoutCache', 'incr', lambda c: c.incr('n', retry=True), 2),
+        ('FanoutCache', 'decr', lambda c: c.decr('n', retry=True), 0),
+        ('FanoutCache', 'touch', lambda c: c.touch('k', 5, retry=True), True),
+        ('FanoutCache', 'pop', lambda c: c.pop('k', retry=True), BIG),
+        ('FanoutCache', 'delete', lambda c: c.delete('k', retry=True), True),
+        ('FanoutCache', 'setitem', lambda c: c.__setitem__('k', 'v'), None),
+        ('FanoutCache', 'delitem', lambda c: c.__delitem__('k'), None),
+        ('DjangoCache', 'set', lambda c: c.set('k', BIG), True),
+        ('DjangoCache', 'add', lambda c: c.add('new', BIG), True),
+        ('DjangoCache', 'incr', lambda c: c.incr('n'), 2),
+        ('DjangoCache', 'decr', lambda c: c.decr('n'), 0),
+        ('DjangoCache', 'touch', lambda c: c.touch('k', 5), True),
+        ('DjangoCache', 'pop', lambda c: c.pop('k'), BIG),
+        ('DjangoCache', 'delete', lambda c: c.delete('k'), True),
     ]
 
 
@@ -264,6 +304,62 @@ def run(tier, seed, rng, known, replay):
         finally:
             env.rec.on_action = None
             shutil.rmtree(d, ignore_errors=True)
+    # retry: every method that takes `retry` waits for the lock and then behaves like the uncontended call
+    for cls_name, name, fn, want in retry_calls():
+        evaluations += 1
+        d = tempfile.mkdtemp(prefix='c14q-', dir=root)
+        try:
+            env.rec.enabled = False
+            if cls_name == 'Cache':
+                c = diskcache.Cache(d, timeout=0, disk_min_file_size=8)
+                targets = [d]
+            elif cls_name == 'FanoutCache':
+                c = diskcache.FanoutCache(d, shards=2, timeout=0, disk_min_file_size=8)
+                targets = [os.path.join(d, '%03d' % i) for i in range(2)]
+            else:
+                c = DjangoCache(d, {'SHARDS': 2, 'DATABASE_TIMEOUT': 0, 'OPTIONS': {'disk_min_file_size': 8}})
+                targets = [os.path.join(d, '%03d' % i) for i in range(2)]
+            c.set('k', BIG)
+            c.set('n', 1)
+            if cls_name == 'Cache':
+                c.push('q')
+            env.rec.enabled = True
+            cons = [holder(t) for t in targets]
+            busy = [0]
+
+            def hook(kind, detail, cons=cons, busy=busy):
+                if kind == 'sql' and detail == 'BEGIN':
+                    busy[0] += 1
+                    if busy[0] == 4:
+                        for con in cons:
+                            con.execute('ROLLBACK')
+            env.rec.on_action = hook
+            env.rec.reset()
+            try:
+                try:
+                    got = ('ok', fn(c))
+                except diskcache.Timeout as e:
+                    got = ('timeout', e.args)
+                except Exception as e:
+                    got = ('exc', type(e).__name__)
+            finally:
+                env.rec.on_action = None
+                for con in cons:
+                    try:
+                        con.close()
+                    except Exception:
+                        pass
+            if got != ('ok', want) and len(violations) < 3:
+                why = 'expected it to wait for the lock (released after 3 busy attempts) and return %r, got %r' % (want, got)
+                violations.append({'replay': {'property': 'C14', 'class': cls_name, 'call': name + ' retry=True', 'acceptor': why},
+                                   'found_input': True, 'what': '%s.%s with retry while the lock is held elsewhere: %s' % (cls_name, name, why)})
+            elif got == ('ok', want):
+                traces_ok += 1
+            c.close()
+        finally:
+            env.rec.on_action = None
+            env.rec.enabled = True
+            shutil.rmtree(d, ignore_errors=True)
     # bulk removals interrupted in the middle: the lock is taken by a foreign connection after the
     # j-th batch has committed; Timeout must carry exactly the number of items already removed
     for name in ('clear', 'evict', 'expire', 'cull', 'fanout-clear', 'fanout-cull'):
@@ -339,7 +435,7 @@ def run(tier, seed, rng, known, replay):
     return {
         'evaluations': evaluations, 'distinct_nontrivial': evaluations,
         'rule': 'every public data operation of Cache (x statistics / LRU settings that turn reads into writes), FanoutCache and DjangoCache with the '
-                'write lock of every shard held by a foreign connection; retry=True released after k in {1,3,7} busy attempts; clear/evict/expire/cull of 250 removable items with the lock taken elsewhere after 1 or 2 committed batches (Cache: Timeout(n); FanoutCache resumes after 3 busy attempts and returns the total); exhaustive over the call list',
+                'write lock of every shard held by a foreign connection; retry=True released after k in {1,3,7} busy attempts; every method that takes retry (Cache, FanoutCache, DjangoCache defaults) waits and returns the uncontended result; clear/evict/expire/cull of 250 removable items with the lock taken elsewhere after 1 or 2 committed batches (Cache: Timeout(n); FanoutCache resumes after 3 busy attempts and returns the total); exhaustive over the call list',
         'samples': samples, 'traces': traces_ok, 'exhaustive': True,
         'dist': {'timeout_traces_matching_model_shape': traces_ok},
         'violations': violations, 'known': [],
